@@ -198,6 +198,11 @@ theorem migrateSelf_core (c : Coll) (now : Nat) (hl : c.legacy = none) :
 
 /-! ## The `legacy = none` invariant -/
 
+def isMigrate : Op → Bool
+  | .migrateUpdatable => true
+  | .migrateSelf => true
+  | _ => false
+
 def isSetLegacy : Op → Bool
   | .setLegacy _ => true
   | _ => false
@@ -227,6 +232,28 @@ theorem migrateUpdatable_legacy {c c' : Coll} {now : Nat} (hl : c.legacy = none)
     by_cases h5 : ver < v31 <;> by_cases h6 : now < day <;> cases kind <;>
     simp [h1, h2, h4, h5, h6] at h
   all_goals first | (rw [← h]) | (split at h <;> cases h <;> rfl)
+
+theorem migrateUpdatable_ver {c c' : Coll} {now : Nat} (h : migrateUpdatable c now = .ok c') :
+    c'.core.kind = .updatable ∧ c'.core.ver = codeVersion .updatable := by
+  rcases c with ⟨⟨kind, toks, cnt, ops, own, info, fz, rua, fm, upd, ver⟩, self, nm, sym, leg⟩
+  unfold migrateUpdatable upgradeRoyalty upgradeOwnership at h
+  generalize Sg721.UPD_EARLIEST = ue at h
+  generalize codeVersion Kind.updatable = code at h ⊢
+  generalize Sg721.V_3_0_0 = v30 at h
+  generalize Sg721.V_3_1_0 = v31 at h
+  generalize DAY_NS = day at h
+  by_cases h3 : ver = code
+  · subst h3
+    by_cases h1 : ver < ue <;> by_cases h2 : ver < ver <;> by_cases h4 : ver < v30 <;>
+      by_cases h5 : ver < v31 <;> by_cases h6 : now < day <;> cases kind <;> rcases leg with _ | a <;>
+      (try by_cases hva : validAddr a = true) <;> simp [*] at h
+    all_goals subst h
+    all_goals exact ⟨rfl, rfl⟩
+  · by_cases h1 : ver < ue <;> by_cases h2 : code < ver <;> by_cases h4 : ver < v30 <;>
+      by_cases h5 : ver < v31 <;> by_cases h6 : now < day <;> cases kind <;> rcases leg with _ | a <;>
+      (try by_cases hva : validAddr a = true) <;> simp [*] at h
+    all_goals subst h
+    all_goals exact ⟨rfl, rfl⟩
 
 theorem migrateSelf_legacy {c c' : Coll} {now : Nat} (hl : c.legacy = none) (h : migrateSelf c now = .ok c') :
     c'.legacy = none := by
